@@ -5,7 +5,11 @@ package xmpp
 // Accessors used by the verification harness in /verif (build tag `verif` only).
 // They add no behaviour: each one forwards to unexported code of this package.
 
-import "time"
+import (
+	"time"
+
+	"gosrc.io/xmpp/stanza"
+)
 
 // VerifEnsurePort exposes ensurePort.
 func VerifEnsurePort(addr string, port int) string { return ensurePort(addr, port) }
@@ -19,3 +23,6 @@ func NewVerifBackoff(base, factor, cap int, noJitter bool) *VerifBackoff {
 func (v *VerifBackoff) Duration() time.Duration                { return v.b.duration() }
 func (v *VerifBackoff) DurationForAttempt(n int) time.Duration { return v.b.durationForAttempt(n) }
 func (v *VerifBackoff) Reset()                                 { v.b.reset() }
+
+// VerifRoute exposes Router.route (the entry point used by the receive loops).
+func VerifRoute(r *Router, s Sender, p stanza.Packet) { r.route(s, p) }
